@@ -79,6 +79,7 @@ class Ctx:
         self.extra = {}
         self.clauses = {}
         self.open = set(open_finding_ids(prop))
+        self.replaying = False
 
     @property
     def quick(self):
@@ -211,12 +212,12 @@ class Ctx:
         path = None
         if n < 20:
             os.makedirs(os.path.join(VERIF, "replays"), exist_ok=True)
-            path = os.path.join(VERIF, "replays", "%s_%s_%d_%d.json" % (self.prop, self.tier, self.seed, n))
+            path = os.path.join(VERIF, "replays", "%s_%s_%d_%d%s.json" % (self.prop, self.tier, self.seed, n, "_replayed" if self.replaying else ""))
             with open(path, "w") as fh:
                 json.dump({"property": self.prop, "what": what, "replay": replay_obj}, fh, indent=1, default=str)
         self.violations.append((what, path))
 
-    def finish(self, level="model_checking", extra_cov=None):
+    def finish(self, level="model_checking", extra_cov=None, write_evidence=True):
         wall = time.time() - self.t0
         cov = {
             "states": self.states,
@@ -241,9 +242,10 @@ class Ctx:
             "wall_s": round(wall, 2),
             "violations": len(self.violations),
         }
-        os.makedirs(os.path.join(VERIF, "evidence"), exist_ok=True)
-        with open(os.path.join(VERIF, "evidence", self.prop + ".json"), "w") as fh:
-            json.dump(ev, fh, default=str)
+        if write_evidence:
+            os.makedirs(os.path.join(VERIF, "evidence"), exist_ok=True)
+            with open(os.path.join(VERIF, "evidence", self.prop + ".json"), "w") as fh:
+                json.dump(ev, fh, default=str)
         seen = set()
         for fid, what in self.known_hits:
             if fid not in seen:
@@ -258,6 +260,19 @@ class Ctx:
             % (self.prop, self.tier, self.states, self.transitions, self.traces, len(self.violations), wall)
         )
         return 1 if self.violations else 0
+
+
+def replay_generic(ctx, path):
+    """re-validate a stored rejected trace against the current specification (same verdict protocol)"""
+    obj = json.load(open(path))
+    rp = obj.get("replay", {})
+    if "module" not in rp or "scenario" not in rp:
+        raise Machinery("replay file %s holds no trace (nothing to re-validate)" % path)
+    sc = rp["scenario"]
+    ctx.evaluations = len(sc.get("events", []))
+    ctx.sample({"replayed": path, "what": obj.get("what", "")[:300]})
+    ctx.extra["rule"] = "re-validation of one stored implementation trace against the current specification"
+    ctx.validate(rp["module"], rp["cfg"], [sc], label="replay of " + os.path.basename(path))
 
 
 def main(argv):
@@ -276,10 +291,14 @@ def main(argv):
     try:
         mod = importlib.import_module("harness.props." + prop.lower())
         if a.replay:
-            mod.replay(ctx, a.replay)
+            ctx.replaying = True
+            if hasattr(mod, "replay"):
+                mod.replay(ctx, a.replay)
+            else:
+                replay_generic(ctx, a.replay)
         else:
             mod.run(ctx)
-        rc = ctx.finish(getattr(mod, "LEVEL", "model_checking"))
+        rc = ctx.finish(getattr(mod, "LEVEL", "model_checking"), write_evidence=not a.replay)
     except Machinery as e:
         print("MACHINERY-ERROR property=%s: %s" % (prop, e), file=sys.stderr)
         rc = 2
